@@ -6,7 +6,7 @@ import uuid
 
 from checks import treeops as OPS  # noqa: F401
 from checks import c03
-from mc import hist, report
+from mc import env, hist, report
 from ref import tree
 
 PROP = "C04"
@@ -94,7 +94,7 @@ def oracle(pre, pool, op, outcome, cfg):
         if atom in MALFORMED:
             if outcome[0] == "ok":
                 out.append(("new_id-accepts-malformed-id", "new_id(%r) returned, id now %r" % (op[2], now), False))
-            elif outcome[1] != "ValueError":
+            elif not env.is_a(outcome[1], "ValueError"):
                 out.append(("new_id-rejects-with-wrong-exception", outcome[1], False))
         if outcome[0] != "ok" and now != pre["id"]:
             out.append(("rejected-new_id-changed-the-id", "%r -> %r" % (pre["id"], now), False))
